@@ -142,12 +142,17 @@ def proof_stage(prop, cfg, tier, rundir):
     return len(thms), discharged, problems, checker
 
 
-def build_harness(features):
+def build_harness(features, target=None):
     cmd = ["cargo", "build", "--offline"]
     if features:
         cmd += ["--features", features]
+    env = None
+    if target:
+        # second build configuration of a run (e.g. the `chrono` feature): own target directory
+        env = dict(ENV)
+        env["CARGO_TARGET_DIR"] = target
     with Lock():
-        r = run(cmd, cwd=HARNESS, timeout=3600)
+        r = run(cmd, cwd=HARNESS, timeout=3600, env=env)
     return r
 
 
@@ -185,10 +190,10 @@ def run_driver(ops, outp, jobs=None):
         f.writelines(merged)
 
 
-def run_family(prop, fam, tier, seed, rundir, extra, tag, replay=None, n=None):
+def run_family(prop, fam, tier, seed, rundir, extra, tag, replay=None, n=None, hbin=None):
     ops = os.path.join(rundir, "ops_%s.txt" % tag)
     outp = os.path.join(rundir, "out_%s.txt" % tag)
-    cmd = [HBIN, fam, "--seed", str(seed), "--tier", tier, "--prop", prop] + list(extra)
+    cmd = [hbin or HBIN, fam, "--seed", str(seed), "--tier", tier, "--prop", prop] + list(extra)
     if n is not None:
         cmd += ["--n", str(n)]
     if replay:
@@ -296,7 +301,23 @@ def main():
             for i, fr in enumerate(cfg["runs"]):
                 fam = fr["family"]
                 extra = fr.get("args", [])
-                cases = run_family(prop, fam, tier, seed, rundir, extra, "%s%d" % (fam, i), replay=replay)
+                if fr.get("tiers") and tier not in fr["tiers"]:
+                    continue
+                hbin = None
+                if fr.get("features"):
+                    # a run with its own build configuration (own target dir; a failing build is reported)
+                    tdir = os.path.join(HARNESS, "target-" + re.sub(r"[^A-Za-z0-9]+", "-", fr["features"]))
+                    rb = build_harness(fr["features"], target=tdir)
+                    if rb.returncode != 0:
+                        path = os.path.join(ROOT, "replays", "%s_harness_build_%s.txt" % (prop, fr["features"]))
+                        os.makedirs(os.path.dirname(path), exist_ok=True)
+                        with open(path, "w") as f:
+                            f.write("the correspondence harness does not compile with --features %s\n" % fr["features"])
+                            f.write("\n".join(rb.stdout.splitlines()[-60:]) + "\n")
+                        violations.append((path, " no-failing-input-found"))
+                        continue
+                    hbin = os.path.join(tdir, "debug", "mpdverif")
+                cases = run_family(prop, fam, tier, seed, rundir, extra, "%s%d" % (fam, i), replay=replay, hbin=hbin)
                 res = classify(prop, cases, known_open)
                 total["n"] += res["n"]
                 for b, k in res["branches"].items():
@@ -321,7 +342,7 @@ def main():
                     k = 0
                     while found is None and time.time() - ts < budget and not replay:
                         k += 1
-                        cs = run_family(prop, fam, tier, seed + 7919 * k, rundir, extra, "%s%d_s%d" % (fam, i, k))
+                        cs = run_family(prop, fam, tier, seed + 7919 * k, rundir, extra, "%s%d_s%d" % (fam, i, k), hbin=hbin)
                         rs = classify(prop, cs, known_open)
                         if rs["oracle_viol"]:
                             found = sorted(rs["oracle_viol"], key=lambda c: len(c["op"]))[:5]
